@@ -152,6 +152,8 @@ def run_item(item):
     func_ctx = None
     if fmt in ('color-n', 'plain-n') and rng.random() < 0.3:
         func_ctx = rng.choice(['-p', '-W'])      # git grep --show-function / --function-context
+    elif fmt == 'color' and rng.random() < 0.2:
+        func_ctx = '-p'                          # the same without -n: there is no number to show in the header either
     model = gen_model(rng, fmt, headers=func_ctx is not None)
     if not model:
         return inconclusive('empty model')
@@ -172,6 +174,8 @@ def run_item(item):
             opts['--hunk-header-style'] = hhs
             hh_file = 'file' in hhs
             hh_num = 'line-number' in hhs
+        if not fmt.endswith('-n'):
+            hh_num = False
     elif rng.random() < 0.15:
         # a hunk header style from the user's configuration: of no concern to grep output
         opts['--hunk-header-style'] = rng.choice(['raw', 'omit', 'file', 'line-number syntax bold', 'syntax'])
@@ -207,7 +211,7 @@ def run_item(item):
     elif delivery == 'stdin-parent-git-grep':
         res = runner.run_delta(args, text.encode(), parent_argv=['git', 'grep', '-n', 'pattern'])
     elif func_ctx:
-        res = runner.run_delta(args, text.encode(), parent_argv=['git', 'grep', '-n', func_ctx, 'pattern'])
+        res = runner.run_delta(args, text.encode(), parent_argv=['git', 'grep'] + (['-n'] if fmt.endswith('-n') else []) + [func_ctx, 'pattern'])
     elif delivery == 'stdin-parent-rg':
         res = runner.run_delta(args, text.encode(), parent_argv=['rg', '-n', 'pattern'])
     else:
